@@ -3,12 +3,12 @@
 NAME=$1; PROP=$2; TIER=${3:-quick}
 cd /repo || exit 2
 if [ -n "$(git status --porcelain --untracked-files=no)" ]; then echo "/repo not clean"; exit 2; fi
-git apply /verif/seeded/$NAME/patch.diff || git apply -3 /verif/seeded/$NAME/patch.diff || { echo "patch does not apply"; git checkout -- .; exit 2; }
+git apply /verif/seeded/$NAME/patch.diff || { echo "patch does not apply"; git reset --hard -q HEAD; exit 2; }
 cd /verif
 EVBAK=$(mktemp); cp evidence/$PROP.json $EVBAK 2>/dev/null
 /opt/veriftools/pyvenv/bin/python run.py --prop $PROP --tier $TIER > /tmp/try_$NAME.log 2>&1; rc=$?
 cp $EVBAK evidence/$PROP.json 2>/dev/null; rm -f $EVBAK
-git -C /repo checkout -- .
+git -C /repo reset --hard -q HEAD
 echo "seed=$NAME prop=$PROP tier=$TIER exit=$rc"
 grep -E "^VIOLATION|^HARNESS-ERROR|^SUMMARY|^NOT-EXH" /tmp/try_$NAME.log | cut -c1-300 | head -8
 grep -A2 "^VIOLATION" /tmp/try_$NAME.log | grep "^   " | head -3 | cut -c1-300
